@@ -13,6 +13,9 @@ def handle (fn : String) (args : List Json) : String :=
   | "is_valid" => match args with
     | [a0] => (do let x0 ← Wire.decStr a0; pure (Wire.respondWith Wire.encBool (Gen.be_iban.is_valid x0)) : Option String).getD "badargs"
     | _ => "badargs"
+  | "to_bic" => match args with
+    | [a0] => (do let x0 ← Wire.decStr a0; pure (Wire.respondWith (Wire.encOpt Wire.encStr) (Gen.be_iban.to_bic x0)) : Option String).getD "badargs"
+    | _ => "badargs"
   | "validate" => match args with
     | [a0] => (do let x0 ← Wire.decStr a0; pure (Wire.respondWith Wire.encStr (Gen.be_iban.validate x0)) : Option String).getD "badargs"
     | _ => "badargs"
